@@ -78,6 +78,7 @@ Proof.
     + destruct i; [apply post_ret; exact W|apply post_lift_rec_f; exact W].
     + intros c1 W1. eapply post_bind; [apply post_any|]. intros u _. apply post_ret. exact W1.
   - eapply post_bind; [apply post_any|]. intros _ _.
+    eapply post_bind; [apply post_any|]. intros d0 _.
     eapply post_bind with (Q := wfp).
     + revert a W. induction its as [|it rest IHits]; intros a W.
       * apply post_ret. exact W.
@@ -87,7 +88,8 @@ Proof.
            ++ apply post_ret. exact W.
            ++ eapply post_bind; [apply Hx; exact W|]. intros a1 W1. apply IHt. exact W1.
         -- intros a' W'. eapply post_bind; [apply post_any|]. intros _ _. apply IHits. exact W'.
-    + intros a1 W1. eapply post_bind; [apply post_any|]. intros _ _. apply post_ret. exact W1.
+    + intros a1 W1. eapply post_bind; [apply post_any|]. intros _ _.
+      eapply post_bind; [apply post_any|]. intros _ _. apply post_ret. exact W1.
   - apply post_with, post_throw.
   - eapply post_bind; [apply post_any|]. intros _ _. apply post_with, post_throw.
 Qed.
